@@ -29,6 +29,7 @@ TRUSTED = ["CPython ast", "random.Random(seed) determinism", "float arithmetic"]
 RP = "workflows.retry_policy"
 RP_REL = "packages/llama-index-workflows/src/workflows/retry_policy.py"
 
+DRAW_NAMES = ("uniform", "random", "randint", "gauss", "choice", "expovariate", "triangular", "randrange", "betavariate", "normalvariate")
 COMBINATORS = {"retry_any": ("or", "retries"), "retry_all": ("and", "retries"), "stop_any": ("or", "stops"), "stop_all": ("and", "stops")}
 DUNDERS = {
     "_RetryConditionBase": {"__and__": ("retry_all", False), "__rand__": ("retry_all", True), "__or__": ("retry_any", False), "__ror__": ("retry_any", True)},
@@ -48,6 +49,44 @@ def _init_field(mrp, cls: str) -> str:
     raise AnchorError(f"C07.R1: {cls}.__init__ does not store its operands")
 
 
+def _module_env(mrp) -> dict:
+    env: dict = {}
+    for q_, f_ in mrp.functions.items():
+        if "." not in q_ and isinstance(f_, ast.FunctionDef):
+            env[q_] = ("__fn__", f_, env)
+    for c_ in list(COMBINATORS) + list(DUNDERS):
+        env[c_] = Record("class", __name__=c_)
+    # module-level numeric / string constants
+    for st in mrp.tree.body:
+        tg = st.targets[0] if isinstance(st, ast.Assign) and len(st.targets) == 1 else (st.target if isinstance(st, ast.AnnAssign) else None)
+        if isinstance(tg, ast.Name) and isinstance(getattr(st, "value", None), ast.Constant):
+            env[tg.id] = st.value.value
+    return env
+
+
+def _combinator_hooks(mrp, menv: dict) -> dict:
+    """Constructors of the four combinators, realised by interpreting their own __init__ on a fresh record."""
+    hooks: dict = {}
+
+    def make(cls_):
+        init = mrp.functions.get(f"{cls_}.__init__")
+        if init is None or init.args.vararg is None:
+            raise AnchorError(f"C07.R1: {cls_}.__init__(*operands) not found")
+
+        def ctor(*ops, **kw):
+            rec = Record(cls_)
+            Interp(menv, hooks).call_function(init, {"self": rec, init.args.vararg.arg: tuple(ops), **kw})
+            return rec
+        return ctor
+
+    for c_ in COMBINATORS:
+        hooks[c_] = make(c_)
+    hooks["getattr"] = lambda o_, n_, *d_: (o_.__dict__[n_] if isinstance(o_, Record) and n_ in o_.__dict__ else (d_[0] if d_ else (_ for _ in ()).throw(Raised("AttributeError", n_))))
+    hooks["hasattr"] = lambda o_, n_: isinstance(o_, Record) and n_ in o_.__dict__
+    hooks["isinstance"] = lambda o_, t_: isinstance(o_, Record) and (getattr(t_, "__name__", None) == o_._cls or (isinstance(t_, tuple) and any(getattr(x_, "__name__", None) == o_._cls for x_ in t_)))
+    return hooks
+
+
 def run(chk) -> None:
     repo = chk.repo
     from ._engine import engine_view
@@ -55,13 +94,15 @@ def run(chk) -> None:
     mrp = repo.module(RP)
     Interp.register_module_classes(mrp)
     cases = 0
+    menv0 = _module_env(mrp)
+    hooks0 = _combinator_hooks(mrp, menv0)
     # ---------------------------------------------------------------- R1 truth tables (exhaustive for 1..3 operands)
     for cls, (op, _f) in COMBINATORS.items():
         call = mrp.functions.get(f"{cls}.__call__")
         if call is None:
             raise AnchorError(f"C07.R1: {cls}.__call__ not found")
-        field = _init_field(mrp, cls)
         bad = ""
+        fam = [c_ for c_ in COMBINATORS if c_.split("_")[0] == cls.split("_")[0]]
         try:
             for n in (1, 2, 3):
                 for vec in itertools.product([False, True], repeat=n):
@@ -73,7 +114,7 @@ def run(chk) -> None:
                             return b
                         return f
 
-                    selfr = Record(cls, **{field: tuple(mk(b) for b in vec)})
+                    selfr = hooks0[cls](*(mk(b) for b in vec))
                     if cls.startswith("retry"):
                         err = Record("Exception")
                         args = {"self": selfr, call.args.args[1].arg: err}
@@ -81,13 +122,26 @@ def run(chk) -> None:
                     else:
                         args = {"self": selfr, "attempts": 3, "elapsed_time": 1.5, "upcoming_sleep": 0.25}
                         want_args = ((3, 1.5), (("upcoming_sleep", 0.25),))
-                    got = Interp().call_function(call, args)
+                    got = Interp(menv0, hooks0).call_function(call, args)
                     cases += 1
                     want = any(vec) if op == "or" else all(vec)
                     if bool(got) != want:
                         bad = bad or f"{cls}{vec} evaluates to {got}, expected {want}"
                     if any(s != want_args for s in seen):
                         bad = bad or f"{cls} does not forward its arguments unchanged: {seen[:1]} vs {want_args}"
+            # an operand that is itself a combinator (of either kind) keeps its own meaning: cls(x, inner(y, z))
+            for inner in fam:
+                iop = COMBINATORS[inner][0]
+                for x_, y_, z_ in itertools.product([False, True], repeat=3):
+                    leaf = lambda v_: (lambda *a, **k: v_)  # noqa: E731
+                    obj = hooks0[cls](leaf(x_), hooks0[inner](leaf(y_), leaf(z_)))
+                    cargs = ([Record("Exception")], {}) if cls.startswith("retry") else ([3, 1.5], {"upcoming_sleep": 0.25})
+                    got = Interp(menv0, hooks0).apply(obj, *cargs)
+                    cases += 1
+                    iv = (y_ or z_) if iop == "or" else (y_ and z_)
+                    want = (x_ or iv) if op == "or" else (x_ and iv)
+                    if bool(got) != want:
+                        bad = bad or f"{cls}(x={x_}, {inner}(y={y_}, z={z_})) evaluates to {bool(got)}, expected {want}: a nested {inner} lost its own and/or structure"
         except (Unsupported, Raised) as e:
             raise AnchorError(f"C07.R1: cannot evaluate {cls}.__call__: {e}")
         chk.ob("C07.R1", f"{cls} is the logical {op.upper()} of its operands for all boolean vectors of 1..3 operands, arguments forwarded", not bad, m=mrp, node=call, fn=call, instance=f"truth-table:{cls}", reason=bad)
@@ -107,15 +161,7 @@ def run(chk) -> None:
             bad_ = ""
             n_eval = 0
             try:
-                menv: dict = {}
-                for q_, f_ in mrp.functions.items():
-                    if "." not in q_ and isinstance(f_, ast.FunctionDef):
-                        menv[q_] = ("__fn__", f_, menv)
-                for c_ in list(COMBINATORS) + list(DUNDERS):
-                    menv[c_] = Record("class", __name__=c_)
-                hooks_ = {c_: (lambda *a_, _c=c_, **k_: Record(_c, **{_init_field(mrp, _c): tuple(a_)})) for c_ in COMBINATORS}
-                hooks_["getattr"] = lambda o_, n_, *d_: (o_.__dict__[n_] if isinstance(o_, Record) and n_ in o_.__dict__ else (d_[0] if d_ else (_ for _ in ()).throw(Raised("AttributeError", n_))))
-                hooks_["isinstance"] = lambda o_, t_: isinstance(o_, Record) and (getattr(t_, "__name__", None) == o_._cls or (isinstance(t_, tuple) and any(getattr(x_, "__name__", None) == o_._cls for x_ in t_)))
+                menv, hooks_ = menv0, hooks0
                 for shape in ("leaf",) + tuple(fam):
                     nleaf = 1 if shape == "leaf" else 2
                     for bits in itertools.product([False, True], repeat=nleaf + 1):
@@ -123,7 +169,7 @@ def run(chk) -> None:
                         if shape == "leaf":
                             selfv, self_truth = leaves[0], bits[0]
                         else:
-                            selfv = Record(shape, **{_init_field(mrp, shape): (leaves[0], leaves[1])})
+                            selfv = hooks0[shape](leaves[0], leaves[1])
                             self_truth = (bits[0] or bits[1]) if COMBINATORS[shape][0] == "or" else (bits[0] and bits[1])
                         other_truth = bits[-1]
                         built = Interp(menv, hooks_).call_function(fn, {"self": selfv, other: leaves[-1]})
@@ -229,6 +275,80 @@ def run(chk) -> None:
             chk.ob("C07.R2", f"{cname}: every returned delay passes through the clamp by self.max", allok, m=mrp, node=call, fn=call, instance=f"upper-clamp:{cname}",
                    reason="a returned expression is not bounded above by self.max (min(…, self.max) / uniform(…, clamped))")
     chk.floor("C07.R2", "exponential terms in wait strategies", pows, 3)
+    # whole-object evaluation on a grid: the strategy is built by interpreting its own __init__ and called for small, large and
+    # overflowing retry numbers, with float and int bases; random draws are pinned to either end of their interval
+    import math as _math
+
+    class _TD:  # stands for datetime.timedelta in isinstance tests
+        pass
+
+    menv0["timedelta"] = _TD
+    genv = menv0
+    GRID_K = [0, 1, 2, 5, 63, 64, 65, 66, 91, 100, 200, 1023, 1024, 1025, 5000]
+    exp_classes = [c_ for c_ in classes if any(isinstance(x, ast.Call) and last(call_name(x)) == "_exp_term" for x in ast.walk(mrp.classes[c_])) or
+                   any(isinstance(x, ast.BinOp) and isinstance(x.op, ast.Pow) for x in ast.walk(mrp.classes[c_]))]
+    chk.floor("C07.R2", "exponential wait strategies evaluated on the grid", len(exp_classes), 3)
+    for cname in exp_classes:
+        init = mrp.functions.get(f"{cname}.__init__")
+        callf = mrp.functions.get(f"{cname}.__call__")
+        if init is None or callf is None:
+            continue
+        ip = [a.arg for a in init.args.posonlyargs + init.args.args + init.args.kwonlyargs][1:]
+        randomised = any(isinstance(x, ast.Attribute) and x.attr in DRAW_NAMES for x in ast.walk(callf)) or any(
+            isinstance(x, ast.Call) and isinstance(x.func, ast.Name) and x.func.id in mrp.functions and any(isinstance(y, ast.Attribute) and y.attr in DRAW_NAMES for y in ast.walk(mrp.functions[x.func.id])) for x in ast.walk(callf))
+        bad_g, n_g = "", 0
+        try:
+            for factor, base, hi in itertools.product((0.01, 1.0), (1.1, 2, 2.0, 3.0), (60.0,)):
+                for end in ((1,) if not randomised else (0, 1)):
+                    rng = Record("Rng")
+                    rng.__dict__["uniform"] = lambda a_, b_, _e=end: (b_ if _e else a_)
+                    rng.__dict__["random"] = lambda _e=end: (1.0 if _e else 0.0)
+                    ghooks = dict(hooks0)
+                    ghooks["random.Random"] = lambda *a_, **k_: rng
+                    ghooks["random.uniform"] = rng.__dict__["uniform"]
+                    ghooks["isinstance"] = lambda o_, t_: (t_ is _TD and False) or (isinstance(t_, type) and t_ is not _TD and isinstance(o_, t_))
+                    kw = {}
+                    for p_ in ip:
+                        if p_ in ("multiplier", "initial"):
+                            kw[p_] = factor
+                        elif p_ == "exp_base":
+                            kw[p_] = base
+                        elif p_ == "max":
+                            kw[p_] = hi
+                        elif p_ == "min":
+                            kw[p_] = 0
+                        elif p_ == "jitter":
+                            kw[p_] = 0.5
+                    obj = Record(cname)
+                    Interp(genv, ghooks).call_function(init, {"self": obj, **kw})
+                    prev = None
+                    for k in GRID_K:
+                        n_g += 1
+                        where = f"{cname}({', '.join(f'{a}={v!r}' for a, v in kw.items())})({k})"
+                        try:
+                            v = Interp(genv, ghooks).call_function(callf, {"self": obj, "attempts": k, "seed": 7})
+                        except Raised as r:
+                            bad_g = bad_g or f"{where} raises {r.name}"
+                            continue
+                        if not isinstance(v, (int, float)) or isinstance(v, bool) or _math.isnan(v) or _math.isinf(v) or v < 0 or v > hi + 1e-9:
+                            bad_g = bad_g or f"{where} = {v!r}: not a finite delay in [0, {hi}]"
+                            continue
+                        if not randomised:
+                            try:
+                                ref = float(factor) * float(base) ** k
+                            except OverflowError:
+                                ref = _math.inf
+                            ref = max(0.0, min(ref, hi))
+                            if abs(v - ref) > 1e-9 * max(1.0, ref):
+                                bad_g = bad_g or f"{where} = {v!r}, the documented delay is min(max, {factor} * {base}**{k}) = {ref!r}"
+                        if prev is not None and v + 1e-12 < prev:
+                            bad_g = bad_g or f"{where} = {v!r} is smaller than the delay for the previous retry number ({prev!r})"
+                        prev = v
+        except Unsupported as e:
+            raise AnchorError(f"C07.R2: cannot evaluate {cname} on the grid: {e}")
+        cases += n_g
+        chk.ob("C07.R2", f"{cname}: for float and int bases and retry numbers 0..5000 the delay is finite, within [0, max], non-decreasing" + ("" if randomised else ", and equals min(max, multiplier * exp_base**k)"),
+               not bad_g, m=mrp, node=callf, fn=callf, instance=f"grid:{cname}", reason=bad_g)
 
     # ---------------------------------------------------------------- R3 determinism per seed
     DRAW = ("uniform", "random", "randint", "gauss", "choice", "expovariate", "triangular", "randrange", "betavariate", "normalvariate")
